@@ -285,7 +285,12 @@ class Driver:
             d2 = ci.__defaults__
             ci.__defaults__ = (batch,)
             self._patches.append(lambda: setattr(ci, "__defaults__", d2))
-        self.server = impl.MysqlServer(session_factory=factory, control=self.ctl, identity_provider=self.provider)
+        # every third server is configured for TLS (an SSLContext the clients of these runs never ask to use): what the
+        # server does for a connection must not depend on it
+        import ssl as _ssl
+        self.tls_configured = (rng.random() < 0.34)
+        self.server = impl.MysqlServer(session_factory=factory, control=self.ctl, identity_provider=self.provider,
+                                       ssl=_ssl.SSLContext(_ssl.PROTOCOL_TLS_SERVER) if self.tls_configured else None)
         self.reader = impl.asyncio.StreamReader(loop=self.env.loop)
         self.writer = LSWriter(self.env, 0)
         self.task = self.env.loop.create_task(self.server._client_connected_cb(self.reader, self.writer))
